@@ -20,6 +20,7 @@ import (
 	"sync"
 	"time"
 
+	"github.com/influxdata/influxdb/cmd/influx_inspect/buildtsi"
 	"github.com/influxdata/influxdb/models"
 	"github.com/influxdata/influxdb/toml"
 	"github.com/influxdata/influxdb/tsdb"
@@ -28,6 +29,7 @@ import (
 	_ "github.com/influxdata/influxdb/tsdb/index"
 	"github.com/influxdata/influxdb/tsdb/index/tsi1"
 	"github.com/influxdata/influxql"
+	"go.uber.org/zap"
 	"verifharness/hx"
 )
 
@@ -54,8 +56,11 @@ type Series struct {
 //	delete  : Shards, From, Cond     Store.DeleteSeries over FROM measurements (empty = all) with tag predicate
 //	                                 Cond and a time range that covers exactly the windows of Shards
 //	dropm   : M                      Store.DeleteMeasurement
+//	dropshard: Sh                    Store.DeleteShard (what retention does), then the shard is created again, empty
 //	compact :                        wait for / force TSI log + level compactions on every shard (tsi1 only)
 //	sfcompact:                       force a series-file partition compaction (both)
+//	sfroll  :                        every series-file partition closes its active segment and starts a new one
+//	                                 (what writeLogEntry does when an entry does not fit; hook VerifRollSegment)
 //	snapshot: Sh                     engine cache snapshot to a TSM file
 //	reopen  :                        close and reopen the store
 //	query   : Q                      observe
@@ -78,12 +83,18 @@ type Op struct {
 //	series   : M, Cond (optional)                 IndexSet(all shards).MeasurementSeriesKeysByExpr(M, cond)
 //	card     :                                    Store.SeriesCardinality(db) (exact bitmap path) and per-shard SeriesN
 //	sfile    :                                    keys of the undeleted ids of the series file
+//	conv     : Sh, Bsz, Small, M, Cond (optional) the shard's files are copied, converted offline to a TSI index the way
+//	                                              influx_inspect buildtsi does (buildtsi.IndexShard: DisableFsync, batches
+//	                                              of Bsz keys, log buffer of 12*Bsz bytes, MaxLogFileSize 1 when Small else
+//	                                              1 MB), the result is opened as an index and asked for the series of M
 type Query struct {
-	Kind string `json:"kind"`
-	Sh   int    `json:"sh,omitempty"`
-	M    string `json:"m,omitempty"`
-	K    string `json:"k,omitempty"`
-	Cond *Pred  `json:"cond,omitempty"`
+	Kind  string `json:"kind"`
+	Sh    int    `json:"sh,omitempty"`
+	Bsz   int    `json:"bsz,omitempty"`
+	Small bool   `json:"small,omitempty"`
+	M     string `json:"m,omitempty"`
+	K     string `json:"k,omitempty"`
+	Cond  *Pred  `json:"cond,omitempty"`
 }
 
 type Desc struct {
@@ -315,6 +326,11 @@ func (w *World) Apply(op *Op) (err error) {
 		return w.st.DeleteSeries(dbName, sources, cond)
 	case "dropm":
 		return w.st.DeleteMeasurement(dbName, op.M)
+	case "dropshard":
+		if err := w.st.DeleteShard(uint64(op.Sh)); err != nil {
+			return err
+		}
+		return w.st.CreateShard(dbName, rpName, uint64(op.Sh), true)
 	case "compact":
 		for _, id := range w.shardIDs() {
 			sh := w.st.Shard(id)
@@ -342,6 +358,18 @@ func (w *World) Apply(op *Op) (err error) {
 		waitSfile(sf)
 		for _, p := range sf.Partitions() {
 			if err := tsdb.NewSeriesPartitionCompactor().Compact(p); err != nil {
+				return err
+			}
+		}
+		return nil
+	case "sfroll":
+		sf := w.sfile()
+		if sf == nil {
+			return nil
+		}
+		waitSfile(sf)
+		for _, p := range sf.Partitions() {
+			if err := p.VerifRollSegment(); err != nil {
 				return err
 			}
 		}
@@ -482,6 +510,8 @@ func (w *World) Observe(q *Query) (obs Obs) {
 			name, tags := models.ParseKeyBytes(k)
 			obs.Rows = append(obs.Rows, seriesRow(name, tags))
 		}
+	case "conv":
+		return w.convert(q)
 	case "card":
 		n, err := w.st.SeriesCardinality(ctx, dbName)
 		if err != nil {
@@ -512,6 +542,112 @@ func (w *World) Observe(q *Query) (obs Obs) {
 		}
 	default:
 		return Obs{Err: "unknown query " + q.Kind}
+	}
+	sortRows(obs.Rows)
+	return obs
+}
+
+// ---------------------------------------------------------------- offline conversion
+
+// copyFile copies a file; long runs of zero bytes at the end (the unused part of a series
+// segment) become a hole again.
+func copyFile(src, dst string) error {
+	data, err := os.ReadFile(src)
+	if err != nil {
+		return err
+	}
+	n := len(data)
+	for n > 0 && data[n-1] == 0 {
+		n--
+	}
+	f, err := os.Create(dst)
+	if err != nil {
+		return err
+	}
+	if _, err := f.Write(data[:n]); err != nil {
+		f.Close()
+		return err
+	}
+	if err := f.Truncate(int64(len(data))); err != nil {
+		f.Close()
+		return err
+	}
+	return f.Close()
+}
+
+func copyTree(src, dst string, skip func(rel string) bool) error {
+	return filepath.Walk(src, func(path string, info os.FileInfo, err error) error {
+		if err != nil {
+			return err
+		}
+		rel, _ := filepath.Rel(src, path)
+		if rel != "." && skip != nil && skip(rel) {
+			if info.IsDir() {
+				return filepath.SkipDir
+			}
+			return nil
+		}
+		if info.IsDir() {
+			return os.MkdirAll(filepath.Join(dst, rel), 0777)
+		}
+		return copyFile(path, filepath.Join(dst, rel))
+	})
+}
+
+// convert answers a "conv" query: copy the series file and the shard's TSM / WAL files,
+// run buildtsi.IndexShard on the copy, open the index it produced and list the series.
+func (w *World) convert(q *Query) (obs Obs) {
+	obs.Rows = [][]string{}
+	tmp, err := os.MkdirTemp(tmpBase(), "h_c14_conv_")
+	if err != nil {
+		return Obs{Err: err.Error()}
+	}
+	defer os.RemoveAll(tmp)
+	shs := fmt.Sprint(q.Sh)
+	dataDir := filepath.Join(tmp, "data", shs)
+	walDir := filepath.Join(tmp, "wal", shs)
+	if err := copyTree(filepath.Join(w.path, "data", dbName, "_series"), filepath.Join(tmp, "_series"), nil); err != nil {
+		return Obs{Err: "copy: " + err.Error()}
+	}
+	if err := copyTree(filepath.Join(w.path, "data", dbName, rpName, shs), dataDir, func(rel string) bool {
+		return rel == "index" || rel == ".index"
+	}); err != nil {
+		return Obs{Err: "copy: " + err.Error()}
+	}
+	if err := copyTree(filepath.Join(w.path, "wal", dbName, rpName, shs), walDir, nil); err != nil && !os.IsNotExist(err) {
+		return Obs{Err: "copy: " + err.Error()}
+	}
+	sfile := tsdb.NewSeriesFile(filepath.Join(tmp, "_series"))
+	if err := sfile.Open(); err != nil {
+		return Obs{Err: "sfile: " + err.Error()}
+	}
+	defer sfile.Close()
+	maxLog := int64(1 << 20)
+	if q.Small {
+		maxLog = 1
+	}
+	if err := buildtsi.IndexShard(sfile, dataDir, walDir, maxLog, 1<<30, q.Bsz, zap.NewNop(), false); err != nil {
+		return Obs{Err: "IndexShard: " + err.Error()}
+	}
+	idx := tsi1.NewIndex(sfile, dbName, tsi1.WithPath(filepath.Join(dataDir, "index")))
+	if err := idx.Open(); err != nil {
+		return Obs{Err: "open: " + err.Error()}
+	}
+	defer idx.Close()
+	// the shard hands its field set to the index (tag keys of predicates are told from field names by it)
+	fs, _ := tsdb.NewMeasurementFieldSet(filepath.Join(dataDir, "fields.idx"))
+	if fs != nil {
+		defer fs.Close()
+		idx.SetFieldSet(fs)
+	}
+	is := tsdb.IndexSet{SeriesFile: sfile, Indexes: []tsdb.Index{idx}}
+	keys, err := is.MeasurementSeriesKeysByExpr([]byte(q.M), parseCond(condStr(q.Cond)))
+	if err != nil {
+		return Obs{Err: err.Error()}
+	}
+	for _, k := range keys {
+		name, tags := models.ParseKeyBytes(k)
+		obs.Rows = append(obs.Rows, seriesRow(name, tags))
 	}
 	sortRows(obs.Rows)
 	return obs
@@ -638,6 +774,11 @@ func coqOps(d *Desc, op *Op) []string {
 		out := []string{fmt.Sprintf("OWrite %s %s", coqNat(op.Sh), hx.CoqList(ss))}
 		if d.LogSize <= 200 {
 			out = append(out, "OCompactLog "+coqNat(op.Sh))
+			if d.LogSize == 1 { // every write swaps the log file; the level compactions follow
+				for lvl := 1; lvl <= 4; lvl++ {
+					out = append(out, fmt.Sprintf("OCompactLevel %s %s", coqNat(op.Sh), coqNat(lvl)))
+				}
+			}
 		}
 		if d.SfThresh > 0 && d.SfThresh <= 2 {
 			out = append(out, "OSfCompact")
@@ -655,11 +796,18 @@ func coqOps(d *Desc, op *Op) []string {
 		if d.LogSize <= 200 {
 			for _, s := range op.Shards {
 				out = append(out, "OCompactLog "+coqNat(s))
+				if d.LogSize == 1 {
+					for lvl := 1; lvl <= 4; lvl++ {
+						out = append(out, fmt.Sprintf("OCompactLevel %s %s", coqNat(s), coqNat(lvl)))
+					}
+				}
 			}
 		}
 		return out
 	case "dropm":
 		return []string{"ODropM " + hx.CoqStr(op.M)}
+	case "dropshard":
+		return []string{"ODropShard " + coqNat(op.Sh)}
 	case "compact":
 		var out []string
 		for sh := 1; sh <= d.NShards; sh++ {
@@ -671,6 +819,8 @@ func coqOps(d *Desc, op *Op) []string {
 		return out
 	case "sfcompact":
 		return []string{"OSfCompact"}
+	case "sfroll":
+		return []string{"OSfRoll"}
 	case "snapshot":
 		return []string{"OSnapshot " + coqNat(op.Sh)}
 	case "reopen":
@@ -695,6 +845,8 @@ func coqQuery(q *Query) string {
 		return "QSeries " + hx.CoqStr(q.M) + " " + coqOptPred(q.Cond)
 	case "shseries":
 		return "QShSeries " + coqNat(q.Sh) + " " + hx.CoqStr(q.M) + " " + coqOptPred(q.Cond)
+	case "conv":
+		return "QConv " + coqNat(q.Sh) + " " + coqNat(q.Bsz) + " " + hx.CoqBool(q.Small) + " " + hx.CoqStr(q.M) + " " + coqOptPred(q.Cond)
 	case "card":
 		return "QCard"
 	case "sfile":
@@ -794,7 +946,7 @@ func emitHistory(o *hx.Out, d *Desc, origin string) {
 			switch op.Op {
 			case "write":
 				nwrites++
-			case "delete", "dropm":
+			case "delete", "dropm", "dropshard":
 				ndeletes++
 			}
 			continue
@@ -888,11 +1040,11 @@ func validDesc(d *Desc) bool {
 			if !okStr(op.M) {
 				return false
 			}
-		case "snapshot":
+		case "snapshot", "dropshard":
 			if !okSh(op.Sh) {
 				return false
 			}
-		case "compact", "sfcompact", "reopen":
+		case "compact", "sfcompact", "sfroll", "reopen":
 		case "query":
 			q := op.Q
 			if q == nil || !okPred(q.Cond) {
@@ -914,6 +1066,10 @@ func validDesc(d *Desc) bool {
 				}
 			case "shseries":
 				if !okStr(q.M) || !okSh(q.Sh) {
+					return false
+				}
+			case "conv":
+				if !okStr(q.M) || !okSh(q.Sh) || q.Bsz < 1 || q.Bsz > 100000 {
 					return false
 				}
 			default:
